@@ -200,22 +200,41 @@ func c20Facts(l *leanDefs) {
 	}
 
 	if fd := findFunc(c20File, "", "CheckExecutablePermissions"); fd != nil && fd.Body != nil {
+		// expected shape: exactly one `if f.Mode()&<mask> == 0 { return … }`. The mask is taken from any
+		// `<expr>&<int literal>` (so that the model stays as close to a changed function as it can); every
+		// other shape of the condition (another operand, further conjuncts / disjuncts) marks the facts stale.
+		nIf := 0
 		ast.Inspect(fd.Body, func(n ast.Node) bool {
-			b, ok := n.(*ast.BinaryExpr)
-			if !ok || b.Op != token.AND {
-				return true
-			}
-			if exprStr(b.X) != "f.Mode()" {
-				stale = true
-				return true
-			}
-			if lit, ok := b.Y.(*ast.BasicLit); ok && lit.Kind == token.INT {
-				if v, err := strconv.ParseInt(lit.Value, 0, 64); err == nil {
-					mask = v
+			switch x := n.(type) {
+			case *ast.IfStmt:
+				nIf++
+				ok := false
+				if c, isBin := x.Cond.(*ast.BinaryExpr); isBin && c.Op == token.EQL && exprStr(c.Y) == "0" {
+					if a, isAnd := c.X.(*ast.BinaryExpr); isAnd && a.Op == token.AND && exprStr(a.X) == "f.Mode()" {
+						ok = true
+					}
+				}
+				if !ok || x.Init != nil || x.Else != nil {
+					stale = true
+				}
+			case *ast.BinaryExpr:
+				if x.Op != token.AND {
+					return true
+				}
+				if lit, ok := x.Y.(*ast.BasicLit); ok && lit.Kind == token.INT {
+					if v, err := strconv.ParseInt(lit.Value, 0, 64); err == nil {
+						if mask >= 0 && mask != v {
+							stale = true
+						}
+						mask = v
+					}
 				}
 			}
 			return true
 		})
+		if nIf != 1 {
+			stale = true
+		}
 	}
 	if mask < 0 {
 		stale = true
